@@ -20,6 +20,7 @@ type Term struct {
 	Fn   *ssa.Function   // closure / fn
 	Site ssa.Instruction // where it was created (calls, allocs)
 	Plc  *Term           // for "slice": the place it aliases (write-through), may be nil
+	Off  *Term           // for "slice" with Plc: element offset of this slice within Plc (nil = 0)
 	s    string
 	k    string
 }
@@ -129,6 +130,8 @@ func (t *Term) render(ids bool) string {
 		return "&" + str(t.Args[0])
 	case "iface":
 		return str(t.Args[0])
+	case "filled":
+		return "filled(" + str(t.Args[1]) + ")"
 	case "list":
 		return "[" + args() + "]"
 	default: // make, lookup, range, next, opaque
